@@ -193,14 +193,21 @@ fn grid() -> Vec<(String, Params)> {
     // key position × key distribution
     let five: Vec<(Ty, u8)> = vec![(U32, 0), (U8, 0), (Str, 0), (U32, 0), (I16, 2), (U32, 0)];
     for kpos in [0usize, 3, 5] {
-        for km in 0..5u8 {
+        for km in 0..7u8 {
             let mut p = grid_params(five.clone(), Some(kpos), 50, next());
             p.key_mode = km;
             g.push((format!("key@{kpos}:mode{km}"), p));
         }
     }
-    // Int32 key (canary for the not-indexed finding)
-    for km in [1u8, 3, 0] {
+    // string block without a leading NUL (first string at offset 0)
+    for n in [1usize, 7, 60] {
+        let mut p = grid_params(vec![(U32, 0), (Str, 0), (U8, 0), (Str, 2)], Some(0), n, next());
+        p.layout = (3, false, false);
+        p.str_skew = 1;
+        g.push((format!("no-leading-nul:rows{n}"), p));
+    }
+    // Int32 key, incl. keys of both signs
+    for km in [1u8, 3, 0, 5, 6, 2] {
         let mut p = grid_params(vec![(I32, 0), (Str, 0), (U8, 0)], Some(0), 10, next());
         p.key_mode = km;
         g.push((format!("int32-key:mode{km}"), p));
